@@ -19,7 +19,15 @@ pub fn run(cases: &[Vec<String>]) {
         let id = case[0].clone();
         let c = case.clone();
         take_panics();
-        let res = run_async_case(1, move || run_case(c));
+        let res = if c[2] == "ua" {
+            // id c11 ua <role> <setup> <script> <seed>: the dialog's responses as the invite usage / acceptor sends them
+            let mut u = vec![c[0].clone(), "ua".into()];
+            u.extend(c[3..].iter().cloned());
+            let seed: u64 = u.get(5).and_then(|s| s.parse().ok()).unwrap_or(1);
+            run_async_case(seed, move || crate::ua::run_case(u))
+        } else {
+            run_async_case(1, move || run_case(c))
+        };
         let panics = take_panics();
         match res {
             Ok(s) if panics.is_empty() => println!("{}\t{}", id, s),
